@@ -70,18 +70,145 @@ def _numeric_warning(w):
     return any(issubclass(x.category, (RuntimeWarning, ComplexWarning)) for x in w)
 
 
-def evaluate(text, tb):
+def evaluate(text, tb, allow_inf=False):
     """-> raw observation {'k': 'val', 'value': v, 'warn': bool} | {'k': 'err', 'cls', 'sf', 'msg', 'warn'}"""
     from mitxgraders.helpers.calc.expressions import evaluator
     from mitxgraders.exceptions import StudentFacingError
     with warnings.catch_warnings(record=True) as w:
         warnings.simplefilter('always')
         try:
-            v = evaluator(text, functions=tables()[tb])[0]
+            v = evaluator(text, functions=tables()[tb], allow_inf=allow_inf)[0]
         except Exception as e:  # noqa
             return {'k': 'err', 'cls': type(e).__name__, 'sf': isinstance(e, StudentFacingError),
                     'msg': str(e)[:160], 'warn': _numeric_warning(w)}
     return {'k': 'val', 'value': v, 'warn': _numeric_warning(w)}
+
+
+# ---------------------------------------------------------------------------------------------- evaluation contexts
+CONTEXTS = ('eval', 'eval_inf', 'fg', 'ng', 'fg_inf', 'ng_inf', 'mg', 'mg_supp', 'mg_nomis', 'interval', 'sumlimit')
+ONE_ARG_ONLY = ('interval', 'sumlimit')
+_CTX = {}
+
+
+def context_graders():
+    """the roads a student's text travels to the function tables (BuiltinFuncs!Contexts)"""
+    if not _CTX:
+        from mitxgraders import FormulaGrader, NumericalGrader, MatrixGrader, IntervalGrader, SumGrader
+        _CTX.update(
+            fg=FormulaGrader(answers='1'), ng=NumericalGrader(answers='1'),
+            fg_inf=FormulaGrader(answers='1', allow_inf=True), ng_inf=NumericalGrader(answers='1', allow_inf=True),
+            mg=MatrixGrader(answers='1'), mg_supp=MatrixGrader(answers='1', suppress_matrix_messages=True),
+            mg_nomis=MatrixGrader(answers='1', answer_shape_mismatch={'is_raised': False}),
+            interval=IntervalGrader(answers='[1, 2]'),
+            sumlimit=SumGrader(answers={'lower': '1', 'upper': '4', 'summand': 'n', 'summation_variable': 'n'},
+                               input_positions={'lower': 1, 'upper': 2}))
+    return _CTX
+
+
+def observe_ctx(x, text, k=0):
+    """-> ('err' | 'val' | 'inf' | 'graded' | 'bad', what was seen)"""
+    from mitxgraders.exceptions import StudentFacingError
+    if x in ('eval', 'eval_inf'):
+        raw = evaluate(text, 'formula', allow_inf=(x == 'eval_inf'))
+        kind, z = side(raw)
+        if kind == 'bad' and raw['k'] == 'val' and not raw['warn']:
+            try:
+                v = complex(raw['value'])
+                if not (math.isnan(v.real) or math.isnan(v.imag)):
+                    kind = 'inf'
+            except Exception:  # noqa
+                pass
+        return kind, show(raw)
+    g = context_graders()[x]
+    if x == 'interval':
+        inp = '[%s, 50]' % text if k % 2 else '[-50, %s]' % text
+    elif x == 'sumlimit':
+        inp = [text, '4'] if k % 2 else ['1', text]
+    else:
+        inp = text
+    with warnings.catch_warnings(record=True) as w:
+        warnings.simplefilter('always')
+        try:
+            r = g(None, inp)
+        except StudentFacingError as e:
+            return ('bad' if _numeric_warning(w) else 'err'), '%s(%s)' % (type(e).__name__, str(e)[:70])
+        except Exception as e:  # noqa
+            return 'bad', '%s(%s)' % (type(e).__name__, str(e)[:70])
+    if _numeric_warning(w) or not (isinstance(r, dict) and 'ok' in r):
+        return 'bad', repr(r)[:100]
+    return 'graded', repr(r)[:100]
+
+
+def accepts_ctx(v, obs):
+    return obs == 'err' if v == 'err' else (obs in ('val', 'graded') if v == 'val' else obs != 'bad')
+
+
+def replay_ctx(states, extra):
+    """every call of part "ctx" is sent down every road, the roads in a different order each time"""
+    from engine import repo
+    repo.activate()
+    n, keys, bad, sample = 0, set(), [], None
+    k = 0
+    for st in states:
+        c = st['c']
+        if c['kind'] != 'ctx':
+            continue
+        k += 1
+        text = text_of(st['out']['toks'])
+        roads = list(CONTEXTS[k % len(CONTEXTS):] + CONTEXTS[:k % len(CONTEXTS)])
+        for x in roads:
+            if x in ONE_ARG_ONLY and not st['out']['onearg']:
+                continue
+            n += 1
+            v = st['out']['v'][x]
+            obs, seen = observe_ctx(x, text, k)
+            keys.add(('ctx', x, c['f'], v, obs))
+            if sample is None and v == 'err' and x == 'interval':
+                sample = {'context': x, 'expr': text, 'verdict': v, 'observed': seen}
+            if not accepts_ctx(v, obs):
+                if len(bad) < 300:
+                    bad.append({'kind': 'ctx', 'table': x, 'f': c['f'], 'expr': text, 'allowed': 'context verdict: ' + v,
+                                'observed': seen, 'class': 'context:%s' % x})
+                else:
+                    bad.append(None)
+    return {'n': n, 'keys': sorted(keys), 'bad': bad, 'sample': sample}
+
+
+CTX_REAL_VALUED = ['sin', 'cos', 'exp', 'sinh', 'cosh', 'tanh', 'sech', 'arctan', 'arcsinh', 'abs', 'floor', 'ceil',
+                   'cot', 'csc', 'coth', 'csch', 'arccot', 'arccsch', 'tan', 'sec']
+
+
+def rand_ctx(rng):
+    """a call of a scalar built-in on numbers (poles and special points over-represented) and the road it is sent down"""
+    x = rng.choice(CONTEXTS)
+    special = [(Fraction(0), Fraction(0)), (Fraction(1), Fraction(0)), (Fraction(-1), Fraction(0)),
+               (Fraction(0), Fraction(1)), (Fraction(0), Fraction(-1)), (Fraction(1, 2), Fraction(0)), (Fraction(-2), Fraction(0)),
+               (Fraction(1000), Fraction(0)), (Fraction(0), Fraction(711))]
+    if x in ONE_ARG_ONLY:
+        f = rng.choice(CTX_REAL_VALUED)
+        args = [rng.choice(special[:3] + special[5:8]) if rng.random() < 0.6 else (rq(rng, 20), Fraction(0))]
+    else:
+        f = rng.choice(FORMULA_NAMES[:36] + ['sinc'])
+        n = 2 if f in ('arctan2', 'kronecker', 'min', 'max') else 1
+        if rng.random() < 0.1:
+            n = max(1, n + rng.choice([-1, 1]))
+        if n > 1:
+            args = [rng.choice(special[:7]) if rng.random() < 0.5 else rgauss(rng, 20) for _ in range(n)]
+        else:
+            args = [rng.choice(special) if rng.random() < 0.6 else rgauss(rng, 20)]
+    text = '%s(%s)' % (f, ', '.join(gauss_text(z, rng) for z in args))
+    return {'ev': 'ctx', 'x': x, 'f': f, 'text': text, 'args': [{'sh': [], 'e': [gj(z)]} for z in args]}
+
+
+def observe_ctx_chunk(cases, extra):
+    from engine import repo
+    repo.activate()
+    out = []
+    for k, c in enumerate(cases):
+        c = dict(c)
+        c['obs'], c['shown'] = observe_ctx(c['x'], c['text'], k)
+        out.append(c)
+    return out
 
 
 def ratio(x):
@@ -786,6 +913,22 @@ def run(ctx):
             for k, v in r.get('worst', {}).items():
                 worst[k] = max(worst.get(k, 0.0), v)
 
+    # ---- the context dimension: the same out-of-domain / pole / wrong-arity calls down every road
+    d = os.path.join(ctx.scratch, 'cases_ctx')
+    ctx.tlc(SPEC, 'arrays/MC_BuiltinFuncs_ctx_%s.cfg' % ctx.tier, dump=d, timeout=600)
+    res = dump.parallel(d + '.dump', 'engine.adapters.c15', 'replay_ctx', extra=extra, procs=4, chunks_per_proc=1)
+    os.remove(d + '.dump')
+    for r in res:
+        ctx.traces_validated += r['n']
+        ctx.evaluations += r['n']
+        for k in r['keys']:
+            ctx.nontrivial.add(tuple(k))
+        if r['sample']:
+            ctx.sample(r['sample'], limit=9)
+        for b in r['bad']:
+            if b is not None:
+                _violate(ctx, b)
+
     # ---- code -> spec
     n_calls, n_idents = (850, 850) if ctx.quick else (4000, 4000)
     rng = ctx.rng
@@ -802,11 +945,22 @@ def run(ctx):
         c['ids'] = [nid + 1, nid + 2, nid + 3]
         nid += 3
     recs = [r for chunk in dump.pmap('engine.adapters.c15', 'observe_chunk', cases, extra=extra) for r in chunk]
+    ctx_cases = [rand_ctx(rng) for _ in range(400 if ctx.quick else 3000)]
+    for c in ctx_cases:
+        nid += 1
+        c['id'] = nid
+    ctx_recs = [r for chunk in dump.pmap('engine.adapters.c15', 'observe_ctx_chunk', ctx_cases, extra=extra) for r in chunk]
+    for r in ctx_recs:
+        r['tb'], r['history'] = r['x'], [r['x']]
+    recs += ctx_recs
     meta = {'ev': 'meta', 'id': 0, 'seed': ctx.seed, 'tier': ctx.tier, 'tree': class_tree()}
     drop = ('text', 'ltext', 'rtext', 'shown', 'rel', 'history')
     slim = [meta] + [{k: v for k, v in r.items() if k not in drop} for r in recs]
     for r in slim[1:]:
-        r['obs'] = {k: v for k, v in r['obs'].items() if k not in ('cls', 'err')}
+        if r['ev'] == 'ctx':
+            r.pop('tb')
+        else:
+            r['obs'] = {k: v for k, v in r['obs'].items() if k not in ('cls', 'err')}
     # the trace specification judges every record on its own, so the trace is validated in slices by several TLC
     # processes side by side (one worker each); the meta record travels with the first slice
     from concurrent.futures import ThreadPoolExecutor
@@ -824,10 +978,17 @@ def run(ctx):
     for r in recs[12:15] + recs[-3:]:
         ctx.sample({'trace_record': {k: v for k, v in r.items() if k != 'obs'}}, limit=14)
     for r in recs:
-        ctx.nontrivial.add(('trace', r['ev'], r['tb'], r.get('f') or r.get('name'), r['obs'].get('k') or r['obs'].get('l')))
+        ctx.nontrivial.add(('trace', r['ev'], r['tb'], r.get('f') or r.get('name'),
+                            r['obs'] if r['ev'] == 'ctx' else (r['obs'].get('k') or r['obs'].get('l'))))
     for i, clause in rej.items():
         if i == 0:
             ctx.note_drift('the exception class tree differs from the one recorded in BuiltinFuncsTrace!ErrParents')
+            continue
+        if clause.startswith('context:'):
+            r = byid[i]
+            _violate(ctx, {'kind': 'trace-ctx', 'table': r['x'], 'f': r['f'], 'expr': r['text'],
+                           'allowed': 'context verdict: ' + clause.split(':')[1], 'observed': r['shown'],
+                           'class': 'context:%s' % r['x']})
             continue
         if clause == 'guard':
             raise Machinery('the random driver generated a point outside the guard of its identity: %r' % byid[i])
@@ -852,7 +1013,7 @@ def run(ctx):
                            'grid_extremes': '1e-6 .. 1e6 on both axes, 709/711 at the overflow edge, 1e-3 off cuts and poles',
                            'matrix_sizes': 'vectors 2-3, matrices 2x2, 2x3, 3x2, 3x3 (TLC); up to 4x4 / length 5 (random)',
                            'identities': len(templates), 'tolerance': TOL,
-                           'scopes': list(SCOPES), 'histories_per_text': 'the 6 orders of the 3 scopes in turn, every '
+                           'scopes': list(SCOPES), 'contexts': list(CONTEXTS), 'histories_per_text': 'the 6 orders of the 3 scopes in turn, every '
                            '4th text one of the %d TLC-enumerated histories with repetitions' % len(orders),
                            'random_call_texts': n_calls, 'random_identity_texts': n_idents}
     ctx.assumptions += [
@@ -880,6 +1041,12 @@ def replay(ctx, rec):
           for t in chunk]
     tables([t['markers'] for t in tm if 'markers' in t][0])
     print('signature:', {k: v for k, v in sig.items() if k not in ('allowed', 'inst')})
+    if sig['kind'] in ('ctx', 'trace-ctx'):
+        obs, seen = observe_ctx(sig['table'], sig['expr'], 0)
+        obs2, seen2 = observe_ctx(sig['table'], sig['expr'], 1)
+        print('observed now:', seen, '/', seen2)
+        v = sig['allowed'].split(': ')[1]
+        return accepts_ctx(v, obs) and accepts_ctx(v, obs2)
     hist = sig.get('history') or [sig['table']]
     if sig['kind'] == 'ident':
         for tb in hist:
